@@ -49,6 +49,7 @@ class ExecBase:
         self.no_oblige = 0
         self._ax_sink = None
         self.unfold_on = True
+        self.known_used = set()
 
     # ------------------------------------------------------------------ names
     def oname(self, kind, label, line):
@@ -64,6 +65,13 @@ class ExecBase:
         if self.spec or self.no_oblige:
             return
         line = self.cur_line if line is None else line
+        from . import known
+        kf = known.match(self.pid, self.c.qual, kind, label)
+        if kf is not None and kf.get("region"):
+            # recorded finding: the clause is still proved *outside* the recorded region
+            region = self.spec_bool(kf["region"], self.entry, old=self.entry)
+            goal = z3.Or(region, goal)
+            self.known_used.add(kf["obligation"])
         g = z3.simplify(goal) if not isinstance(goal, bool) else z3.BoolVal(goal)
         if not z3.is_true(g):
             self.obls.append(Obl(self.oname(kind, label, line), kind, label, line, st.pc, goal,
